@@ -1,4 +1,4 @@
-import Tw.Model.Net
+import Tw.Model.NetRef
 import Tw.Drv.Conn6
 
 /-!
@@ -14,6 +14,7 @@ A session is one endpoint plus a clock.  Request lines:
     reject <pid> <hexreason> | disconnect <pid> <hexreason> | ignore <pid>
     send <pid> v|n <hex> | flush <pid> | sendcl <addr> <hex>
     tick | needs_tick
+    feed … k=<n> | tick k=<n>            the application pulls only `n` items of the returned iterator
     dup                                   oracle-only marker: an address is about to get a second peer
     nextid <n>                            verification hook `Net::verif_set_next_peer_id` (counter of fresh ids)
     sweep s|c <depth> <lo> <hi> | <op> ; <op> ; …      hash form: all sequences of `depth` calls over the alphabet
@@ -84,8 +85,14 @@ def parseOp (args : List String) : Option Op :=
     match a.toNat?, parseHex h with
     | some a, some d => some (.sendConnless a d)
     | _, _ => none
-  | ["tick"] => some .tick
+  | ["tick"] | ["tick", _] => some .tick
   | _ => none
+
+/-- trailing `k=<n>`: the application pulls only `n` items of the returned iterator -/
+def parsePull (args : List String) : Option Nat :=
+  match args.find? (fun a => a.startsWith "k=") with
+  | none => none
+  | some a => (a.drop 2).toString.toNat?
 
 def stepLine (w : World) (toks : List String) : World × String :=
   match toks with
@@ -107,7 +114,7 @@ def stepLine (w : World) (toks : List String) : World × String :=
       | none => (w, "bad-op")
       | some op =>
         let env : Tw.Conn6.Env := { now := w.now, draws := parseDraws toks }
-        match step env w.net op with
+        match stepLazy env w.net op (parsePull toks) with
         | .error f => ({ w with dead := true }, failStr f)
         | .ok (net, r, o) => ({ w with net := net }, outLine net r o)
 
